@@ -121,8 +121,15 @@ def _dt_after(args, kwargs, result, tok):
         _stack[-1].events.append(("dt", np.array(result, dtype=float, copy=True).ravel()))
 
 
-class _StepErr:
-    pass
+def _step_error(args, kwargs, exc, tok):
+    """the real step raised (singular implicit system, ...): keep the nesting counter balanced"""
+    _depth["step"] = max(0, _depth["step"] - 1)
+
+
+def _solve_error(args, kwargs, exc, log):
+    if _stack and _stack[-1] is log:
+        _stack.pop()
+    log.raised = repr(exc)
 
 
 def install(with_solve=True):
@@ -130,9 +137,9 @@ def install(with_solve=True):
     def sb(args, kwargs):
         return _step_before(args, kwargs)
     for cls in probes.defining_classes(tn.timemodel, "step"):
-        probes.hook(cls, "step", before=sb, after=_step_after)
+        probes.hook(cls, "step", before=sb, after=_step_after, error=_step_error)
     if with_solve:
-        probes.hook(tn.timemodel, "_solve", before=_solve_before, after=_solve_after)
+        probes.hook(tn.timemodel, "_solve", before=_solve_before, after=_solve_after, error=_solve_error)
         probes.hook(tn.timemodel, "_parse_monitors", after=_pm_after)
         probes.hook(md.fvm1d, "calc_timestep", after=_dt_after)
         probes.hook(md.fvm2dcart, "calc_timestep", after=_dt_after)
